@@ -174,6 +174,14 @@ def mixture_dm(mix, n):
     return rho, tot, None
 
 
+def build_real(layout, ops_list):
+    from graphiq.circuit.circuit_dag import CircuitDAG
+    circ = CircuitDAG(n_emitter=layout[0], n_photon=layout[1], n_classical=layout[2])
+    for op in ops_list:
+        circ.add(op)
+    return circ
+
+
 def run_real(layout, ops_list, backend, noise_on, reduce_flag):
     import graphiq.noise.noise_models as nm
     from graphiq.circuit.circuit_dag import CircuitDAG
@@ -273,7 +281,13 @@ def check_case(acc, layout, program, noises, tier):
                 acc.transitions += len(program)
                 try:
                     ops_list = [make_noisy_op(l, nd) for l, nd in zip(program, noises)]
-                    st = run_real(layout, ops_list, backend, noise_on, reduce_flag)
+                    circ_obj = build_real(layout, ops_list)
+                    st = compile_real(circ_obj, backend, noise_on, reduce_flag)
+                    if noise_on and reduce_flag and not trivial:
+                        # the same circuit object compiled again (same and other back end) must give the same channel
+                        for again in (backend, "mix" if backend == "dm" else "dm"):
+                            st2 = compile_real(circ_obj, again, True, True)
+                            check_state(acc, st2, again, n, want_on, survival(noises, program, True), dict(case, recompiled_with=again), again + ":recompile-same-circuit")
                 except Exception as e:
                     import traceback
                     tb = traceback.extract_tb(e.__traceback__)
